@@ -807,12 +807,12 @@ var builtInCostNames = []string{"ChangeOwnerAddress", "ClaimDeveloperRewards", "
 
 // GasMapFrom builds a schedule from 22 values (6 base operation costs then 16 built-in costs).
 func GasMapFrom(vals []uint64) map[string]map[string]uint64 {
-	m := map[string]map[string]uint64{vmcommon.BaseOperationCostString: {}, vmcommon.BuiltInCostString: {}}
+	m := map[string]map[string]uint64{refBaseOperationCostSection: {}, refBuiltInCostSection: {}}
 	for i, n := range baseCostNames {
-		m[vmcommon.BaseOperationCostString][n] = vals[i]
+		m[refBaseOperationCostSection][n] = vals[i]
 	}
 	for i, n := range builtInCostNames {
-		m[vmcommon.BuiltInCostString][n] = vals[len(baseCostNames)+i]
+		m[refBuiltInCostSection][n] = vals[len(baseCostNames)+i]
 	}
 	return m
 }
@@ -830,12 +830,12 @@ func DistinctGas(scale uint64) map[string]map[string]uint64 {
 // GasValid mirrors the documented acceptance rule: every one of the 22 entries present and non-zero.
 func GasValid(g map[string]map[string]uint64) bool {
 	for _, n := range baseCostNames {
-		if g[vmcommon.BaseOperationCostString][n] == 0 {
+		if g[refBaseOperationCostSection][n] == 0 {
 			return false
 		}
 	}
 	for _, n := range builtInCostNames {
-		if g[vmcommon.BuiltInCostString][n] == 0 {
+		if g[refBuiltInCostSection][n] == 0 {
 			return false
 		}
 	}
